@@ -25,12 +25,22 @@ Qed.
 Fixpoint keys_nodup (l : list str) : bool :=
   match l with [] => true | k :: r => negb (mem_str k r) && keys_nodup r end.
 
+(* a value of a scaled type lies on the grid of its scale: it is (numerically) k * scale for the integer
+   k = round(value / scale) *)
+Definition on_grid (s f : f64) : bool :=
+  match float_of_Z (fround (fdiv f s)) with
+  | Some kf => feq (fmul kf s) f
+  | None => false
+  end.
+
 (* the value set of C01 (limits, lengths, membership, element-wise) in canonical internal form, plus: floats are
-   finite, struct keys are distinct, and the mandatory members of a struct are present (optional members may be
-   missing, on the node as well as on the client: validate accepts and export_value transports such values) *)
+   finite, scaled values are grid points, struct keys are distinct, and the mandatory members of a struct are present
+   (optional members may be missing, on the node as well as on the client: validate accepts and export_value
+   transports such values) *)
 Fixpoint valid (d : dtype) (v : pyval) {struct d} : bool :=
   match d, v with
   | TFloat mn mx _ _, PFloat f => fis_finite f && in_setb d v
+  | TScaled s _ _, PFloat f => in_setb d v && on_grid s f
   | TArray e a b, PTuple l =>
       (a <=? Z.of_nat (length l))%Z && (Z.of_nat (length l) <=? b)%Z && forallb (valid e) l
   | TTuple es, PTuple l =>
